@@ -29,7 +29,13 @@ type c15Case struct {
 	Exts     []string `json:"exts"`
 	Ext      string   `json:"ext"` // extension the target file carries
 	OS       bool     `json:"os"`  // OSFileSystemLoader rooted in a temp dir with marker files outside
+	// Hop: the referring template is not asked for directly; a template in another directory reaches it
+	// through its own extends / import clause ("" = no hop). The referrer's relative names still resolve
+	// against the referrer's directory, not the directory of whoever asked first.
+	Hop string `json:"hop,omitempty"`
 }
+
+const c15Entry = "/hop/entry"
 
 type traceEv struct {
 	Op   string
@@ -145,6 +151,12 @@ func genC15(t *rapid.T) c15Case {
 	c.Exts = c15ExtLists[rapid.IntRange(0, len(c15ExtLists)-1).Draw(t, "exts")]
 	c.Ext = c.Exts[rapid.IntRange(0, len(c.Exts)-1).Draw(t, "ext")]
 	c.OS = rapid.IntRange(0, 3).Draw(t, "os") == 0
+	if c.Via != "get" {
+		c.Hop = rapid.SampledFrom([]string{"", "", "extends", "import"}).Draw(t, "hop")
+		if c.Hop == "import" && c.Via == "extends" {
+			c.Hop = "extends"
+		}
+	}
 	return c
 }
 
@@ -211,6 +223,17 @@ func (c c15Case) files(spelling string) map[string]string {
 		files[target] = "TARGET"
 		files[ref] = "[{{includeIfExists(" + q + ")}}]"
 	}
+	switch c.Hop {
+	case "extends":
+		files[c15Entry+c.Exts[len(c.Exts)-1]] = fmt.Sprintf("{{extends %q}}entry junk", c.referrer())
+	case "import":
+		clause, body := "", files[ref]
+		if c.Via == "import" {
+			clause, body = "{{import "+q+"}}", "{{yield tb()}}"
+		}
+		files[ref] = clause + "{{block rb()}}" + body + "{{end}}"
+		files[c15Entry+c.Exts[len(c.Exts)-1]] = fmt.Sprintf("{{import %q}}{{yield rb()}}", c.referrer())
+	}
 	return files
 }
 
@@ -255,6 +278,9 @@ func (c c15Case) run(spelling string, tmp string) (trace []traceEv, out jetrun.O
 	if c.Via == "get" {
 		entry = spelling
 	}
+	if c.Hop != "" {
+		entry = c15Entry
+	}
 	t, o := jetrun.Get(s, entry)
 	if o.Failed() {
 		return trace, o, nil, false
@@ -296,6 +322,9 @@ func judgeC15(c c15Case) (v core.Verdict) {
 	if c.OS {
 		v.Label("os-loader")
 	}
+	if c.Hop != "" {
+		v.Label("hop:" + c.Hop)
+	}
 	if dots > c.Depth {
 		v.Label("more-dotdot-than-depth")
 	}
@@ -303,6 +332,9 @@ func judgeC15(c c15Case) (v core.Verdict) {
 	for _, e := range c.Exts {
 		allowed[canon+e] = true
 		allowed[c.referrer()+e] = true
+		if c.Hop != "" {
+			allowed[c15Entry+e] = true
+		}
 	}
 	check := func(spelling, sub string) (trace []traceEv, ok bool) {
 		d := tmp
@@ -311,6 +343,9 @@ func judgeC15(c c15Case) (v core.Verdict) {
 		}
 		trace, out, names, outside := c.run(spelling, d)
 		desc := fmt.Sprintf("%s %q from %s (exts %q, target file %s)", c.Via, spelling, c.referrer(), c.Exts, target)
+		if c.Hop != "" {
+			desc += fmt.Sprintf(", the referrer itself reached from %s by %s", c15Entry, c.Hop)
+		}
 		if outside {
 			v.Failf("%s: content from outside the loader's root directory was rendered: %q", desc, out.Out)
 			return trace, false
@@ -321,7 +356,7 @@ func judgeC15(c c15Case) (v core.Verdict) {
 				v.Failf("%s: %s received the path %q, which is not a clean absolute slash path (trace %v)", desc, ev.Op, ev.Path, trace)
 				return trace, false
 			}
-			bareCacheKey := (ev.Op == "Get" || ev.Op == "Put") && (ev.Path == canon || ev.Path == c.referrer())
+			bareCacheKey := (ev.Op == "Get" || ev.Op == "Put") && (ev.Path == canon || ev.Path == c.referrer() || c.Hop != "" && ev.Path == c15Entry)
 			if !allowed[ev.Path] && !bareCacheKey {
 				v.Failf("%s: %s received %q; expected the canonical name %q (or the referrer) plus a configured extension (trace %v)", desc, ev.Op, ev.Path, canon, trace)
 				return trace, false
